@@ -53,7 +53,9 @@ def wellformed_and_signatures(text):
         while k < len(row):
             if row[k] == '*v':
                 j = k
-                while j + 1 < len(row) and row[j + 1] == '*v':
+                # a join merges the adjacent sub-spines of ONE spine; two runs side by side (*v *v *v *v over two spines)
+                # are two joins (C02: merged sub-spines from the first join cell of their own spine)
+                while j + 1 < len(row) and row[j + 1] == '*v' and paths[r][j + 1][1] == paths[r][k][1]:
                     j += 1
                 if j == k:
                     return f'line {r + 1} holds a single *v: a join needs at least two adjacent sub-spines', []
